@@ -1,0 +1,190 @@
+//go:build verif
+// +build verif
+
+package tars
+
+// Test-only exports for the failover verification (property C15).  Compiled only with the
+// "verif" build tag; nothing here is called by production code.
+
+import (
+	"fmt"
+	"math/rand"
+	"sync/atomic"
+
+	"github.com/TarsCloud/TarsGo/tars/util/endpoint"
+)
+
+// VerifFailoverHealth is a copy of an AdapterProxy's health record.
+type VerifFailoverHealth struct {
+	Exists          bool
+	Closed          bool
+	Status          bool
+	FailCount       int32
+	LastFailCount   int32
+	SendCount       int32
+	SuccessCount    int32
+	LastSuccessTime int64
+	LastBlockTime   int64
+	LastCheckTime   int64
+	LastKeepAlive   int64
+}
+
+// VerifFailoverQuiesce makes the background status checker and the endpoint refresher of the
+// process-wide manager tick practically never.  It must be called before the first servant proxy is
+// created; it reports whether it was in time.
+func VerifFailoverQuiesce() bool {
+	cfg := GetClientConfig()
+	const never = 1 << 40 // milliseconds
+	cfg.CheckStatusInterval = never
+	cfg.RefreshEndpointInterval = never
+	return gManager == nil
+}
+
+func verifFoMgr(sp *ServantProxy) *endpointManager {
+	em, ok := sp.manager.(*endpointManager)
+	if !ok || em == nil {
+		panic("verif: servant proxy has no endpointManager")
+	}
+	return em
+}
+
+func verifFoName(host string, port int32) string { return fmt.Sprintf("%s:%d", host, port) }
+
+// VerifFailoverRegistry returns the endpoints last obtained from the registry (host:port, in the
+// order checkStatus visits them).
+func VerifFailoverRegistry(sp *ServantProxy) []string {
+	em := verifFoMgr(sp)
+	out := make([]string, 0, len(em.activeEpf))
+	for _, ef := range em.activeEpf {
+		out = append(out, verifFoName(ef.Host, ef.Port))
+	}
+	return out
+}
+
+func verifFoAdapters(em *endpointManager) map[string]*AdapterProxy {
+	m := map[string]*AdapterProxy{}
+	em.epList.Range(func(_, v interface{}) bool {
+		adp := v.(*AdapterProxy)
+		m[verifFoName(adp.point.Host, adp.point.Port)] = adp
+		return true
+	})
+	return m
+}
+
+// VerifFailoverHealthOf returns the health record of every adapter the manager has created so far.
+func VerifFailoverHealthOf(sp *ServantProxy) map[string]VerifFailoverHealth {
+	out := map[string]VerifFailoverHealth{}
+	for name, adp := range verifFoAdapters(verifFoMgr(sp)) {
+		out[name] = VerifFailoverHealth{
+			Exists:          true,
+			Closed:          adp.closed,
+			Status:          adp.status,
+			FailCount:       atomic.LoadInt32(&adp.failCount),
+			LastFailCount:   atomic.LoadInt32(&adp.lastFailCount),
+			SendCount:       atomic.LoadInt32(&adp.sendCount),
+			SuccessCount:    atomic.LoadInt32(&adp.successCount),
+			LastSuccessTime: atomic.LoadInt64(&adp.lastSuccessTime),
+			LastBlockTime:   atomic.LoadInt64(&adp.lastBlockTime),
+			LastCheckTime:   atomic.LoadInt64(&adp.lastCheckTime),
+			LastKeepAlive:   atomic.LoadInt64(&adp.lastKeepAliveTime),
+		}
+	}
+	return out
+}
+
+// VerifFailoverShift moves every timestamp of every adapter delta seconds into the past.  All
+// comparisons in the health logic are "now - t >= threshold", so this equals advancing the clock.
+func VerifFailoverShift(sp *ServantProxy, delta int64) int {
+	n := 0
+	for _, adp := range verifFoAdapters(verifFoMgr(sp)) {
+		atomic.AddInt64(&adp.lastSuccessTime, -delta)
+		atomic.AddInt64(&adp.lastBlockTime, -delta)
+		atomic.AddInt64(&adp.lastCheckTime, -delta)
+		atomic.AddInt64(&adp.lastKeepAliveTime, -delta)
+		n++
+	}
+	return n
+}
+
+// VerifFailoverCheckStatus runs one pass of the periodic status check.
+func VerifFailoverCheckStatus(sp *ServantProxy) {
+	verifFoMgr(sp).checkStatus()
+}
+
+// VerifFailoverActive returns the manager's active endpoint slice (host:port, slice order,
+// duplicates preserved).
+func VerifFailoverActive(sp *ServantProxy) []string {
+	em := verifFoMgr(sp)
+	em.epLock.Lock()
+	defer em.epLock.Unlock()
+	out := make([]string, 0, len(em.activeEp))
+	for _, ep := range em.activeEp {
+		out = append(out, verifFoName(ep.Host, ep.Port))
+	}
+	return out
+}
+
+// VerifFailoverProbeQueue returns the queue of probe candidates (in order) and the set that guards
+// it.  Only meaningful while no call and no status check is running: the queue is drained and refilled.
+func VerifFailoverProbeQueue(sp *ServantProxy) (queue []string, listed []string) {
+	em := verifFoMgr(sp)
+	queue, listed = []string{}, []string{}
+	if em.checkAdapter != nil {
+		n := len(em.checkAdapter)
+		held := make([]*AdapterProxy, 0, n)
+		for i := 0; i < n; i++ {
+			select {
+			case adp := <-em.checkAdapter:
+				held = append(held, adp)
+			default:
+			}
+		}
+		for _, adp := range held {
+			queue = append(queue, verifFoName(adp.point.Host, adp.point.Port))
+			em.checkAdapter <- adp
+		}
+	}
+	em.checkAdapterList.Range(func(_, v interface{}) bool {
+		adp := v.(*AdapterProxy)
+		listed = append(listed, verifFoName(adp.point.Host, adp.point.Port))
+		return true
+	})
+	return queue, listed
+}
+
+// VerifFailoverDrySelect asks one of the manager's selectors ("rr", "mod", "ch") for an endpoint
+// without making a call.  The round-robin selector advances its cursor, as for any caller.
+func VerifFailoverDrySelect(sp *ServantProxy, kind string, code uint32) (string, bool) {
+	em := verifFoMgr(sp)
+	msg := &Message{}
+	var (
+		ep  endpoint.Endpoint
+		err error
+	)
+	switch kind {
+	case "mod":
+		msg.SetHash(code, ModHash)
+		ep, err = em.activeEpModHash.Select(msg)
+	case "ch":
+		msg.SetHash(code, ConsistentHash)
+		ep, err = em.activeEpConHash.Select(msg)
+	default:
+		ep, err = em.activeEpRoundRobin.Select(msg)
+	}
+	if err != nil {
+		return "", false
+	}
+	return verifFoName(ep.Host, ep.Port), true
+}
+
+// VerifFailoverSeedFallback reseeds the generator used for the random fallback choice.
+func VerifFailoverSeedFallback(sp *ServantProxy, seed int64) {
+	verifFoMgr(sp).rand = rand.New(rand.NewSource(seed))
+}
+
+// VerifFailoverClose closes every adapter of the manager (end of a replayed behaviour).
+func VerifFailoverClose(sp *ServantProxy) {
+	for _, adp := range verifFoAdapters(verifFoMgr(sp)) {
+		adp.Close()
+	}
+}
